@@ -8,11 +8,11 @@ BASELINE_OFF = ("cd /repo && GOFLAGS=-mod=mod GOPROXY=off GOSUMDB=off GOTOOLCHAI
 
 CHECKS = {
  "C15": dict(level="exploration", design="5/C15",
-   text="Differential run of the two implementations of the repository: the C library is built from /repo/c (current tree) with clang ASan+UBSan and driven by /verif/cdriver/driver.c. Every query (full scan, SeekRef, SeekLog, RefsFor) is answered by both implementations on the same file/directory: Go-written tables read by C, C-written tables read by Go (and judged by the independent decoder and the source records), Go-written stacks (Adds + compactions) read by C, C-written stacks (stack_add with its auto-compaction, compact_all) read and extended by Go and read again by C. Sanitizer reports of the C side on such input are violations.",
+   text="Differential run of the two implementations of the repository: the C library is built from /repo/c (current tree) with clang ASan+UBSan and driven by /verif/cdriver/driver.c. Every query (full scan, SeekRef, SeekLog, RefsFor) is answered by both implementations on the same file/directory: Go-written tables read by C, C-written tables read by Go (and judged by the independent decoder and the source records), Go-written stacks (Adds + compactions) read by C, C-written stacks (stack_add with its auto-compaction, compact_all) read and extended by Go and read again by C. Sanitizer reports of the C side on such input are violations. Also (e): the C stack extends a stack written by Go - single transactions and multi-table additions through reftable_stack_new_addition / addition_add / addition_commit (C's auto-compaction then merges tables Go wrote), compact_all, compact_all with reflog expiry (time and minimum update index, judged by the reference filter) and reftable_stack_clean - and Go reads the result (fresh view == model) and C's answers on it == Go's.",
    note="NUL-free names and strings; configurations both writers accept (a writer rejecting an input is counted, not judged); ASan leak detection off.",
    technique="runtime monitoring: differential oracle (two implementations + source records) with compiler sanitizers (ASan, UBSan) on the C half"),
  "C18": dict(level="exploration", design="5/C18",
-   text="Mutated tables (16 mutation kinds incl. length-field edits with the footer CRC repaired, splices, zlib bombs, index scribbles, short files) of valid tables of every layout are fed, in a child process per batch, to NewReader and then to every reader entry point (scans, seeks, ReadRef, ReadLogAt, RefsFor, merged views with a valid table). Monitors: recover() around every call (panic = violation, signature = topmost reftable frame + panic class), child death (fatal error, OOM, signal), bytes allocated per call (runtime/metrics) <= 64 MiB + 64*len, records per iterator <= 2^24 + 8*len, CPU time per input <= 30 s (from /proc/<pid>/stat). The witness input is written to disk before the call. Thorough adds Go native coverage-guided fuzzing (FuzzReader, execution-count budget) with the same probe.",
+   text="Mutated tables (17 mutation kinds incl. length-field edits with the footer CRC repaired, splices, zlib bombs, index scribbles, short files) of valid tables of every layout are fed, in a child process per batch, to NewReader and then to every reader entry point (scans, seeks, ReadRef, ReadLogAt, RefsFor, merged views with a valid table). Monitors: recover() around every call (panic = violation, signature = topmost reftable frame + panic class), child death (fatal error, OOM, signal), bytes allocated per call (runtime/metrics) <= 64 MiB + 64*len, records per iterator <= 2^24 + 8*len, CPU time per input <= 30 s (from /proc/<pid>/stat). The witness input is written to disk before the call. Thorough adds Go native coverage-guided fuzzing (FuzzReader, execution-count budget) with the same probe. Mutation kind log-plaintext (3 of 21): a log block is inflated, its plain records / restart table are edited (cut at any byte with a consistent restart table and block length, flips, byte sets, varint runs, restart-offset and count edits) and deflated again, so that the edit reaches the log record decoder instead of dying in the inflater.",
    note="Quick tier is mutation-based only; inputs up to ~24 KB. The child has a 6 GiB address-space limit.",
    technique="runtime monitoring: crash/allocation/iteration/CPU monitors around the real reader on mutated inputs, process isolation per batch"),
  "C19": dict(level="exploration", design="5/C19",
@@ -20,11 +20,11 @@ CHECKS = {
    note="The race detector only reports races that occur in the interleavings of this run; rounds are repeated. Concurrent use of one Stack or one Iterator is not promised and not exercised.",
    technique="Go race detector (-race) over a repeated concurrent read workload + result comparison against sequential answers"),
  "C04": dict(level="exploration", design="5/C04", engine="engineA",
-   text="2..4 real Stack handles run scripts on one real directory under a token-passing scheduler that decides, at every hooked filesystem call, which process goes next: pause sweeps (A parked before each of its filesystem operations while the others run) over ordered pairs of operation kinds and several initial stacks, nested sweeps over triples, and PCT/uniform random schedules. Oracles: M-commit on every rename onto tables.list (new view = old view, or old view + the committer's transaction), Add result <=> committed exactly once, final fresh view = fold of commits, porcupine linearizability check of the client-boundary history. Cross-validated by engine B: real worker processes with injected delays, a seqlock observer and kill -9, checked offline with the same oracles. I/O fault sweeps: every hooked filesystem operation of every call kind fails once with an injected error (removals exempt); the failed call is indeterminate but never partially visible, a call that still returns nil committed exactly its transaction. Sequential single-handle histories and the capacity-window family (records at the capacity of a block that become the first record of a compacted table): an Add or compaction by the only handle never fails.",
+   text="2..4 real Stack handles run scripts on one real directory under a token-passing scheduler that decides, at every hooked filesystem call, which process goes next: pause sweeps (A parked before each of its filesystem operations while the others run) over ordered pairs of operation kinds and several initial stacks, nested sweeps over triples, and PCT/uniform random schedules. Oracles: M-commit on every rename onto tables.list (new view = old view, or old view + the committer's transaction), Add result <=> committed exactly once, final fresh view = fold of commits, porcupine linearizability check of the client-boundary history. Cross-validated by engine B: real worker processes with injected delays, a seqlock observer and kill -9, checked offline with the same oracles. I/O fault sweeps: every hooked filesystem operation of every call kind fails once with an injected error (removals exempt); the failed call is indeterminate but never partially visible, a call that still returns nil committed exactly its transaction. Sequential single-handle histories and the capacity-window family (records at the capacity of a block that become the first record of a compacted table): an Add or compaction by the only handle never fails. Also late-clock pair sweeps (virtual clock decades after the files' time stamps).",
    note="Processes are goroutines of one OS process; in-memory code between two filesystem calls runs atomically (exact for separate processes, which share no memory). Real kernel semantics for O_EXCL/rename/unlink (tmpfs). Verdict covers the schedules actually run.",
    technique="runtime monitoring: online refinement monitor on hooked filesystem operations under a seeded scheduler + offline linearizability checking (porcupine) of recorded histories"),
  "C05": dict(level="exploration", design="5/C05", engine="engineA",
-   text="Same engine; after EVERY single filesystem operation of every process the directory is checked: tables.list parsed independently, every named file exists and passes the independent decoder, hash size matches, ranges strictly increase, a fresh NewStack succeeds and shows the last committed state; no listed table is ever removed. Workload biased to 2..3 concurrent compactions of disjoint/overlapping ranges. I/O fault sweeps with the per-operation directory check: a failed operation never publishes a list naming a missing or malformed table.",
+   text="Same engine; after EVERY single filesystem operation of every process the directory is checked: tables.list parsed independently, every named file exists and passes the independent decoder, hash size matches, ranges strictly increase, a fresh NewStack succeeds and shows the last committed state; no listed table is ever removed. Workload biased to 2..3 concurrent compactions of disjoint/overlapping ranges. I/O fault sweeps with the per-operation directory check: a failed operation never publishes a list naming a missing or malformed table. Also late-clock pair sweeps (virtual clock decades after the files' time stamps).",
    note="A process crash does not change the directory, so the state checked after operation k is the state a crash after k leaves. Same engine assumptions as C04.",
    technique="runtime monitoring: invariant checked at every hooked filesystem operation (independent list parser + decoder + fresh open) under seeded schedules"),
  "C06": dict(level="fault_enumeration", design="5/C06", engine="engineA",
@@ -32,31 +32,31 @@ CHECKS = {
    note="Process crashes only (no torn writes, no power loss - excluded by the property). Enumeration is complete per explored operation, not over all operations/stacks.",
    technique="runtime monitoring with fault injection: crash enumeration at every hooked filesystem operation along observed executions, oracle = fresh open vs. commit history"),
  "C08": dict(level="exploration", design="5/C08", engine="engineA",
-   text="Same engine; M-lock ledger (path -> creator, inode) updated at every create/remove/rename of a *.lock path: a create while a live holder exists, a removal/rename by a non-creator or of a different inode are violations; at every commit the new tables.list bytes must equal what the committer wrote through its own lock-file descriptor. Workload: contention triples on the re-lock, overlapping compactions, crash of a lock holder followed by other writers, random 3-4 writer schedules. I/O-fault-inside-window sweeps: a process takes an injected error at each of its operations on lock files and at its renames while another process is parked before each of its operations in turn (so the error paths run while the other one holds tables.list.lock or table locks).",
+   text="Same engine; M-lock ledger (path -> creator, inode) updated at every create/remove/rename of a *.lock path: a create while a live holder exists, a removal/rename by a non-creator or of a different inode are violations; at every commit the new tables.list bytes must equal what the committer wrote through its own lock-file descriptor. Workload: contention triples on the re-lock, overlapping compactions, crash of a lock holder followed by other writers, random 3-4 writer schedules. I/O-fault-inside-window sweeps: a process takes an injected error at each of its operations on lock files and at its renames while another process is parked before each of its operations in turn (so the error paths run while the other one holds tables.list.lock or table locks). Also: a commit that drops a table from the list while another live process holds that table's compaction lock is a violation (two compactions rewrite the same table); explicit-range compaction pairs (nested and overlapping ranges); late-clock sweeps: the same pause sweeps with the virtual clock 80 years after the files' time stamps (a lock stays its creator's however old it looks).",
    note="Same engine assumptions as C04. Does not require that compaction uses per-table locks at all, only observable exclusivity and ownership.",
    technique="runtime monitoring: ownership ledger on hooked lock-file operations under seeded schedules"),
  "C10": dict(level="exploration", design="5/C10", engine="engineA",
-   text="Same engine; after every completed call of a handle and at read calls placed between other processes' operations the handle's full scans, ReadRef and RefsFor must succeed, its table names must equal ONE recorded version of tables.list (not older than before) and the scans must equal a fresh reader's view of that version. Workload: the reading handle is paused at each hook of reload (after the list read, between table opens) while 1-3 others run sequences of Add + compaction. Also: sweeps in which the list shrinks without any new file (a prefix of the stack cancels out), and I/O fault sweeps (an error inside Add, compaction or reload leaves the handle with one consistent version). Slow-clock sweeps: the same pause sweeps with the virtual clock advancing 2 s per reading, so that the reload's own 2.5 s deadline expires after one failed attempt: it must report failure, never success with a stale or empty stack.",
+   text="Same engine; after every completed call of a handle and at read calls placed between other processes' operations the handle's full scans, ReadRef and RefsFor must succeed, its table names must equal ONE recorded version of tables.list (not older than before) and the scans must equal a fresh reader's view of that version. Workload: the reading handle is paused at each hook of reload (after the list read, between table opens) while 1-3 others run sequences of Add + compaction. Also: sweeps in which the list shrinks without any new file (a prefix of the stack cancels out), and I/O fault sweeps (an error inside Add, compaction or reload leaves the handle with one consistent version). Slow-clock sweeps: the same pause sweeps with the virtual clock advancing 2 s per reading, so that the reload's own 2.5 s deadline expires after one failed attempt: it must report failure, never success with a stale or empty stack. Also table-unlink fault sweeps: the unlink of a dropped table fails (read-only directory / EIO) at each removal a stale handle's reload, a compaction, Close or Clean performs - the handle must end on one consistent version and stay readable.",
    note="Same engine assumptions as C04. Does not require that the handle sees the newest version.",
    technique="runtime monitoring: snapshot-consistency monitor (handle view vs. recorded list versions) under seeded schedules"),
  "C16": dict(level="exploration", design="5/C16", engine="engineA",
-   text="Same engine; M-own ledger of every file a process created or became responsible for (locks, temp tables, tables renamed into place but not yet listed, tables its commit dropped from the list): empty whenever the process returns from a call; at global quiescence the directory is exactly tables.list + listed tables (before and after closing the handles). Crash part: after another process was killed at every point of its operation, Clean/Close of a live process never remove a listed table, do not panic and succeed. Plus sequential multi-handle histories with failed Adds, stale compactions and empty stacks. I/O fault sweeps: every hooked filesystem operation of every call kind fails once with an injected error (removals exempt); the failed call must still release every lock and temporary file it created.",
+   text="Same engine; M-own ledger of every file a process created or became responsible for (locks, temp tables, tables renamed into place but not yet listed, tables its commit dropped from the list): empty whenever the process returns from a call; at global quiescence the directory is exactly tables.list + listed tables (before and after closing the handles). Crash part: after another process was killed at every point of its operation, Clean/Close of a live process never remove a listed table, do not panic and succeed. Plus sequential multi-handle histories with failed Adds, stale compactions and empty stacks. I/O fault sweeps: every hooked filesystem operation of every call kind fails once with an injected error (removals exempt); the failed call must still release every lock and temporary file it created. Also late-clock pair sweeps and table-unlink fault sweeps (a file whose unlink failed with the injected error is excused, nothing else).",
    note="Same engine assumptions as C04. A Clean that fails because it races with another live process's cleanup is not counted (the property only demands release of what was taken).",
    technique="runtime monitoring: resource-ownership ledger checked at every idle point and at quiescence, with crash injection and I/O fault injection"),
  "C03": dict(level="exploration", design="5/C03",
-   text="Table sets of 1..6 tables with increasing update-index ranges over a small overlapping key alphabet (updates, deletions, re-creations, log tombstones with old update indices) are read through the raw merged view and through Stack.Merged() over hand-placed files; full scans and seeks at every key class are compared with the newest-wins overlay computed from the inputs. Also: wide sets (7..30 tables); nested views (a raw view over a raw view, and over the stack view, of the older tables plus the newer tables); full scans with every block read of every table failing in turn (error or the undisturbed result, never a silently shorter one).",
+   text="Table sets of 1..6 tables with increasing update-index ranges over a small overlapping key alphabet (updates, deletions, re-creations, log tombstones with old update indices) are read through the raw merged view and through Stack.Merged() over hand-placed files; full scans and seeks at every key class are compared with the newest-wins overlay computed from the inputs. Also: wide sets (7..30 tables); nested views (a raw view over a raw view, and over the stack view, of the older tables plus the newer tables); full scans with every block read of every table failing in turn (error or the undisturbed result, never a silently shorter one). Also, per view: 2..4 iterators of the one Merged open at the same time and advanced in turn (interleaved-iterators oracle).",
    note="Trusts the generator and the overlay reference (gen/multi.go).",
    technique="runtime monitoring: reference-model oracle (newest-wins overlay) over real merged iterators on generated table sets"),
  "C07": dict(level="exploration", design="5/C07",
-   text="Model-driven single-handle histories (creates, updates, deletes, symrefs, peeled tags, log appends, log tombstones, varied table sizes) with auto-compaction, CompactAll, AutoCompact and reopen; after every call the handle's full ref+log scan must equal the reference model, a fresh handle every 5 calls. The harness tracks which tables were merged, so the evidence counts compactions of upper ranges holding a tombstone for a key that lives in a lower table. Also: the capacity-window family (records at the capacity of a block that become the first record of the compacted table) and, under the engine's commit monitor, compactions whose filesystem calls - reads of the input tables included, long log sections - fail once each: a compaction fails or commits exactly the content of its inputs.",
+   text="Model-driven single-handle histories (creates, updates, deletes, symrefs, peeled tags, log appends, log tombstones, varied table sizes) with auto-compaction, CompactAll, AutoCompact and reopen; after every call the handle's full ref+log scan must equal the reference model, a fresh handle every 5 calls. The harness tracks which tables were merged, so the evidence counts compactions of upper ranges holding a tombstone for a key that lives in a lower table. Also: the capacity-window family (records at the capacity of a block that become the first record of the compacted table) and, under the engine's commit monitor, compactions whose filesystem calls - reads of the input tables included, long log sections - fail once each: a compaction fails or commits exactly the content of its inputs. Also under the engine-A scheduler (M-commit: a compaction's commit leaves the view unchanged): two handles compacting explicitly chosen disjoint / nested / overlapping ranges and CompactAll / AutoCompact / expiry compactions parked before each of their filesystem operations while the other handle compacts and adds; I/O-fault sweeps over compaction inputs.",
    note="Trusts the reference stack model (gen/txn.go). Which range gets compacted is decided by the code under test; ranges are steered only through table sizes.",
    technique="runtime monitoring: reference-model oracle over real stack histories, views compared before/after every compaction"),
  "C09": dict(level="exploration", design="5/C09",
-   text="Sequential random histories over 2..4 handles; the harness reads tables.list independently and knows which handles are stale. Stale Add/NewAddition must return ErrLockFailure, stale CompactAll/AutoCompact/Clean must leave the directory byte-identical; after a failed Add UpToDate(), NextUpdateIndex() and the immediate retry are checked. Operations include expiry compactions and Addition left open across other handles' writes.",
+   text="Sequential random histories over 2..4 handles; the harness reads tables.list independently and knows which handles are stale. Stale Add/NewAddition must return ErrLockFailure, stale CompactAll/AutoCompact/Clean must leave the directory byte-identical; after a failed Add UpToDate(), NextUpdateIndex() and the immediate retry are checked. Operations include expiry compactions and Addition left open across other handles' writes. Also: views of handles that hold exactly the listed tables are compared with the model before every call; Adds carrying an already committed update index (prepared before another handle's Add) must fail and change nothing; restart histories (the stack is emptied, numbering restarts, the same update-index ranges are committed again with other content while a second handle still holds the first generation).",
    note="Sequential by construction (the property quantifies over sequential histories); interleavings are C04's.",
    technique="runtime monitoring: staleness reference model + directory snapshots around every call of real multi-handle histories"),
  "C11": dict(level="exploration", design="5/C11",
-   text="RefsFor is called for every occurring object id (<=40 per table) and for absent ids on tables with pooled ids (object index present, skipped, position lists omitted, min update index > 0), on raw merged views and on stack views over generated table sets; oracle = filter of the generator's list / of the overlay with absolute update indices.",
+   text="RefsFor is called for every occurring object id (<=40 per table) and for absent ids on tables with pooled ids (object index present, skipped, position lists omitted, min update index > 0), on raw merged views and on stack views over generated table sets; oracle = filter of the generator's list / of the overlay with absolute update indices. Also: RefsFor / SeekRef iterators of one Reader or Merged open at the same time and advanced in turn (a nested lookup inside another lookup's result loop): each must yield what it yields alone.",
    note="Trusts the generator; the independent decoder tells which tables carry omitted position lists.",
    technique="runtime monitoring: reference-model oracle (filter of the input list) over real RefsFor iterators"),
  "C12": dict(level="exploration", design="5/C12",
@@ -64,7 +64,7 @@ CHECKS = {
    note="Trusts the 20-line reference rule in props/c12.go.",
    technique="runtime monitoring: executable reference rule + invariant scan of live names after every commit of real histories"),
  "C13": dict(level="exploration", design="5/C13",
-   text="CompactAll(expiry) on generated stacks (0..6 tables, several entries per ref, tombstones) with each limit unset / below / equal / inside / above the data range; expected = reference filter over the model view, refs untouched, through the same handle and a fresh one, idempotence on repeat.",
+   text="CompactAll(expiry) on generated stacks (0..6 tables, several entries per ref, tombstones) with each limit unset / below / equal / inside / above the data range; expected = reference filter over the model view, refs untouched, through the same handle and a fresh one, idempotence on repeat. Round 2 (60% of the cases): more log entries arrive through Stack.Add or NewAddition/Add/Commit on the same handle and the SAME configuration is applied again - it must expire exactly the new entries it covers.",
    note="Trusts the reference filter keepLog in props/c13.go.",
    technique="runtime monitoring: reference filter oracle over real CompactAll(expiry) executions at boundary values"),
  "C17": dict(level="exploration", design="5/C17",
@@ -76,11 +76,11 @@ CHECKS = {
    note="Trusts my reading of the format (DESIGN.md appendix A) and the Go standard library zlib/crc32.",
    technique="runtime monitoring: independent format decoder as oracle over files emitted by executions of the real writer/stack"),
  "C01": dict(level="exploration", design="5/C01",
-   text="Generated tables (all Config values x limits x record shapes, deterministic from VERIF_SEED) are written by the real Writer and scanned by the real Reader; the oracle is the generator's own record list after the documented normalisation only. Held = every generated table of this run read back exactly. Also (one table in eight): the same table written through an io.Writer whose k-th Write fails, once or from then on, for every k: some AddRef/AddLog/Close call must report the error and the writer must not panic - a table counts as produced without error only if every Write succeeded.",
+   text="Generated tables (all Config values x limits x record shapes, deterministic from VERIF_SEED) are written by the real Writer and scanned by the real Reader; the oracle is the generator's own record list after the documented normalisation only. Held = every generated table of this run read back exactly. Also (one table in eight): the same table written through an io.Writer whose k-th Write fails, once or from then on, for every k: some AddRef/AddLog/Close call must report the error and the writer must not panic - a table counts as produced without error only if every Write succeeded. Also (one table in four): the table is written again while another Writer writes a table inside every Write call of its io.Writer, and (one in sixteen) by eight goroutines at once, each with its own Writer - the bytes must be identical to the undisturbed table (Writers share no state).",
    note="Trusts the harness's generator/normaliser (gen/) and Go's compress/zlib. Inputs rejected by the writer are counted out-of-domain, not held.",
    technique="runtime monitoring: reference-model oracle (generator's record list) over executions of the real writer+reader on generated inputs"),
  "C02": dict(level="exploration", design="5/C02",
-   text="Every key class around every record key (exact, predecessor, successor, prefix, +-1, empty, beyond-last; for logs update index u, u+-1, 0, max) is sought in writer-produced tables with 0..3 index levels; oracle = suffix of the generator's list. Also (one table in eight): every ReadBlock of the block source fails once in turn while the table is opened, scanned and sought: each answer must be an error or exactly the undisturbed answer (a read error never becomes a silently shorter result), and the reader must not panic.",
+   text="Every key class around every record key (exact, predecessor, successor, prefix, +-1, empty, beyond-last; for logs update index u, u+-1, 0, max) is sought in writer-produced tables with 0..3 index levels; oracle = suffix of the generator's list. Also (one table in eight): every ReadBlock of the block source fails once in turn while the table is opened, scanned and sought: each answer must be an error or exactly the undisturbed answer (a read error never becomes a silently shorter result), and the reader must not panic. Also, per table: 2..4 iterators of the one Reader (SeekRef / SeekLog at PRNG-chosen keys) are open at the same time and advanced one record at a time in PRNG-chosen order, new seeks issued in between; each must yield exactly the suffix it yields alone.",
    note="Trusts the generator; for large tables only a window after the landing point is compared for most keys (full suffix for every 16th key and near the end).",
    technique="runtime monitoring: reference-model oracle (binary search in the input list) over real Reader seeks on generated tables"),
 }
@@ -121,7 +121,7 @@ def main():
         ),
         engines=[
             dict(name="harness", path="/verif/harness", serves_properties=sorted(CHECKS), kind_free_text="Go harness: generators, reference models, independent decoder, monitors; built per run against a rewritten copy of the working tree"),
-            dict(name="engineA", path="/verif/vfs/vos/sched.go", serves_properties=[p for p in ["C04","C05","C06","C08","C10","C16"] if p in CHECKS], kind_free_text="token-passing scheduler over hooked filesystem calls of goroutine 'virtual processes' on a real directory; seeded schedules, pause sweeps, crash injection"),
+            dict(name="engineA", path="/verif/vfs/vos/sched.go", serves_properties=[p for p in ["C04","C05","C06","C07","C08","C10","C16"] if p in CHECKS], kind_free_text="token-passing scheduler over hooked filesystem calls of goroutine 'virtual processes' on a real directory; seeded schedules, pause sweeps, crash injection"),
         ],
         checks=checks,
         notes="Runtime monitoring only: every verdict is 'held on the executions listed in the evidence file'. known_findings.json lists defects (fixed by 'fix:' commits in /repo, or known).",
